@@ -4,6 +4,7 @@ it over recursive Go types and copies it with the real deep copier and through C
 import json
 import os
 import random
+import re
 import time
 
 from . import common as C
@@ -92,16 +93,36 @@ def run_check(pid, tier, replay=None):
                 raise C.Inconclusive("self-test: toggle %s no longer violates anything" % tog)
         for i, c in enumerate(cases):
             c["id"] = "g%d" % i
+        # two fixed shapes outside the enumerated node family (see DESIGN 0.4: D3, D4); placed last in one worker's share
+        probes = [{"id": "probe-selfptr", "probe": "selfptr", "nodes": [], "maps": [], "imaps": []},
+                  {"id": "probe-interior", "probe": "interior", "nodes": [], "maps": [], "imaps": []}]
         results, crashes = run_cases(vh, scratch, cases, workers=12, subcmd="graph")
-        byid = {c["id"]: c for c in cases}
+        for pr in probes:
+            r2, c2 = run_cases(vh, scratch, [pr], workers=1, subcmd="graph")
+            results += r2
+            crashes += c2
+        byid = {c["id"]: c for c in cases + probes}
+        known = C.load_known()["findings"]
+        known_hits = set()
+
+        def is_known(cid, text):
+            for k in known:
+                if k["property"] == pid and k.get("case_id") == cid and re.search(k["match"], text):
+                    known_hits.add(k["what"])
+                    return True
+            return False
         violations = []
         for cid, first, stderr in crashes:
+            if is_known(cid, first + stderr):
+                continue
             rp = C.write_replay(pid, cid, {"property": pid, "kind": "graph", "case": byid.get(cid), "crash": stderr[-1500:]})
             violations.append(("copying graph %s killed the process: %s" % (cid, first), rp))
         for r in results:
             if len(violations) >= 30:
                 break
             ms = r.get("mismatches") or []
+            if ms and is_known(r["id"], ms[0]["detail"]):
+                continue
             if ms:
                 rp = C.write_replay(pid, r["id"], {"property": pid, "kind": "graph", "case": byid.get(r["id"]), "mismatches": ms})
                 violations.append(("graph %s: %s" % (r["id"], ms[0]["detail"][:200]), rp))
@@ -119,6 +140,6 @@ def run_check(pid, tier, replay=None):
                          ["types that point to themselves through a plain pointer field cannot be passed to Config (finding D3); the "
                           "through-Config run reaches the graph through a slice",
                           "interior pointers into by-value fields are outside the node family (finding D4)"])
-        return C.finish(pid, violations[:25])
+        return C.finish(pid, violations[:25], sorted(known_hits))
     finally:
         scratch.cleanup()
